@@ -5,7 +5,8 @@
 //
 // A case is one random Ord instance expression (library combinators nested up to depth 3, all
 // component types instantiated at V = any, see package verif/c09/dyn) and a pool of values with
-// ties in different representations, single-position mutants and shared prefixes. All ordered
+// ties in different representations, single-position mutants, shared prefixes and values that
+// share storage (windows of one backing array, the same pointer inside different values). All ordered
 // pairs and triples are evaluated against the reference order dyn.RefCmp, which is plain Go over
 // the models of the values. The same instance then drives seq|iterator|list.Sort/Min/Max.
 package main
@@ -465,7 +466,8 @@ func sign(x int) int {
 func (c *caseT) blame(e *dyn.Expr, a, b *dyn.M) string {
 	for _, al := range dyn.Align(e, a, b) {
 		inst := c.reg.inst[al.Kid]
-		va, vb := dyn.Build(al.Kid.Dom, al.A), dyn.Build(al.Kid.Dom, al.B)
+		ctx := dyn.NewCtx() // one context: the two components share storage exactly as they do inside the pool values
+		va, vb := ctx.Build(al.Kid.Dom, al.A), ctx.Build(al.Kid.Dom, al.B)
 		want := dyn.RefCmp(al.Kid, al.A, al.B)
 		if inst.Less(va, vb) != (want < 0) || inst.Less(vb, va) != (want > 0) || inst.Eqv(va, vb) != (want == 0) || sign(inst.Compare(va, vb)) != want {
 			return c.blame(al.Kid, al.A, al.B)
@@ -479,7 +481,8 @@ func (c *caseT) blame(e *dyn.Expr, a, b *dyn.M) string {
 func (c *caseT) blameIncons(e *dyn.Expr, a, b *dyn.M) string {
 	for _, al := range dyn.Align(e, a, b) {
 		k := c.reg.inst[al.Kid]
-		va, vb := dyn.Build(al.Kid.Dom, al.A), dyn.Build(al.Kid.Dom, al.B)
+		ctx := dyn.NewCtx()
+		va, vb := ctx.Build(al.Kid.Dom, al.A), ctx.Build(al.Kid.Dom, al.B)
 		l, g, q, cmp := k.Less(va, vb), k.Less(vb, va), k.Eqv(va, vb), k.Compare(va, vb)
 		ok := (cmp < 0) == l && (cmp > 0) == g && (cmp == 0) == q && k.LessEq(va, vb) == (l || q) && btoi(l)+btoi(g)+btoi(q) == 1
 		if ok {
@@ -514,7 +517,8 @@ func callBudget(depth, size int) int64 {
 func (c *caseT) blameCost(e *dyn.Expr, a, b *dyn.M) string {
 	for _, al := range dyn.Align(e, a, b) {
 		inst := c.reg.inst[al.Kid]
-		va, vb := dyn.Build(al.Kid.Dom, al.A), dyn.Build(al.Kid.Dom, al.B)
+		ctx := dyn.NewCtx()
+		va, vb := ctx.Build(al.Kid.Dom, al.A), ctx.Build(al.Kid.Dom, al.B)
 		start := cost.n
 		inst.Compare(va, vb)
 		if cost.n-start > callBudget(al.Kid.Depth(), al.A.Size()+al.B.Size()) {
@@ -805,6 +809,41 @@ func (c *caseT) checkOrder(inst fp.Ord[V]) (ties, onePos int) {
 	w.Add("pairs.one_position_apart", int64(onePos))
 	if e.Op == dyn.OpTuple && len(allPos) == len(e.Kids) {
 		w.Add("allpos."+root, 1)
+	}
+	// storage sharing and time range among the pairs that were evaluated in both directions
+	hasTime := dyn.HasKind(e.Dom, dyn.KTime)
+	for j, en := range c.pool {
+		if hasTime {
+			dyn.TimeClasses(e.Dom, en.M, func(class string) { w.Add("time."+class, 1) })
+		}
+		if strings.HasPrefix(en.Rel, "alias-") && R[en.Parent][j].known && R[j][en.Parent].known {
+			w.Add("alias.variant_vs_origin."+en.Rel[len("alias-"):], 1)
+		}
+		if en.Shared {
+			w.Add("alias.values_with_shared_storage", 1)
+		}
+		for i := 0; i < j; i++ {
+			if !R[i][j].known || !R[j][i].known {
+				continue
+			}
+			if en.Shared && c.pool[i].Shared {
+				dyn.AliasClasses(e.Dom, c.pool[i].M, en.M, func(class string) { w.Add("alias."+class, 1) })
+			}
+			if e.Op == dyn.OpTime {
+				a, b := c.pool[i].M, en.M
+				if fa, fb := dyn.OutsideInt64Nanos(a.Sec, a.Ns), dyn.OutsideInt64Nanos(b.Sec, b.Ns); fa || fb {
+					w.Add("time.root_pairs_with_an_instant_outside_int64_nanoseconds", 1)
+					if fa && fb && (a.Sec < 0) != (b.Sec < 0) {
+						w.Add("time.root_pairs_far_past_vs_far_future", 1)
+					}
+				}
+				if dyn.TimeMono(a) != dyn.TimeMono(b) {
+					w.Add("time.root_pairs_monotonic_vs_wall", 1)
+				} else if dyn.TimeMono(a) {
+					w.Add("time.root_pairs_both_monotonic", 1)
+				}
+			}
+		}
 	}
 	w.Add("root.impl."+implOf(inst), 1)
 	return ties, onePos
@@ -1157,9 +1196,10 @@ func runCase(w *vrt.W, i int) {
 		n, trials = 40, 3
 	}
 	c := &caseT{w: w, idx: i, e: e, deep: deep, pool: dyn.GenPool(r, e.Dom, n), reg: &registry{map[*dyn.Expr]fp.Ord[V]{}, map[*dyn.Expr]string{}}}
+	ctx := dyn.NewCtx() // one context for the whole pool: pinned parts of different values share their storage
 	for _, en := range c.pool {
-		c.x = append(c.x, dyn.Build(e.Dom, en.M))
-		c.y = append(c.y, dyn.Build(e.Dom, en.M))
+		c.x = append(c.x, ctx.Build(e.Dom, en.M))
+		c.y = append(c.y, dyn.Build(e.Dom, en.M)) // a copy in storage of its own
 	}
 	c.exprStr = e.Format(staticName)
 	depth := 0
@@ -1249,7 +1289,7 @@ func main() {
 				runCase(w, i)
 			}
 		},
-		Rule: "case = one Ord instance expression + one value pool + Sort/Min/Max runs driven by that instance. The expression is drawn by a PRNG over Given (13 numeric kinds and string), Time, Option, Seq, Slice, Ptr (lazy.Done|lazy.Call), Tuple1..21, HCons/HNil, ContraMap and GivenField (through id/half/neg/len/lower/floor/isDefined/tuple projection), New, FromCompare (results scaled by 1, 3, 2^40), as.Ord, Reversed and ThenComparing (primary = an order with ties, both on LessFunc- and CompareFunc-backed receivers), nested up to 3 combinators deep with every component type instantiated at any; global case number g forces catalogue entry g mod 37 (each instance, every tuple arity, an 18-element HCons chain) at nesting level 0,1,2(,3). The pool (>=24 quick / >=40 thorough values) holds random base values, copies in another representation, one single-position mutant per tuple component / sequence element of the first base value, all proper prefixes and an extension for sequence roots, and random further mutants; NaN is never generated. On all ordered pairs and all triples: exactly one of Less(a,b), Less(b,a), Eqv(a,b); Less and Eqv transitive; Compare sign, LessEq, Min, Max consistent with Less; Less, Eqv and Compare equal to the reference order on the models (leaf <, instants, None/nil first, lexicographic with the shorter prefix first, function-then-order for ContraMap/GivenField, wrapped order for New/FromCompare/as.Ord, flipped for Reversed, primary-then-secondary for ThenComparing). Every leaf instance sits behind a call counter: one Less/Eqv/Compare/LessEq/Min/Max call may invoke the component instances at most 200 * 3^depth(expression) * size(a,b) times (logical budget, key <combinator>/exponential-comparisons); per run and wide product (Tuple10..21, HCons chain of 18) one designated deep case evaluates the first base value against its mutant at every position whatever it costs, other pairs whose estimated cost (calibrated by measuring Tuple6 vs Tuple12) is too high are skipped and counted. If the instance is consistent, seq|iterator|list.Sort/Min/Max run on inputs of length 0..200 drawn from the pool with replacement (random, pre-sorted, reversed, 1-3 distinct values); elements carry an identity tag so that permutation, untouched input, sortedness (by the instance and by the reference), least/greatest element and None-on-empty are decided exactly. distinct_nontrivial counts distinct (expression, pool) fingerprints of cases whose pool had at least one tie between different pool entries AND at least one strictly ordered pair exactly one position apart.",
+		Rule: "case = one Ord instance expression + one value pool + Sort/Min/Max runs driven by that instance. The expression is drawn by a PRNG over Given (13 numeric kinds and string), Time, Option, Seq, Slice, Ptr (lazy.Done|lazy.Call), Tuple1..21, HCons/HNil, ContraMap and GivenField (through id/half/neg/len/lower/floor/isDefined/tuple projection), New, FromCompare (results scaled by 1, 3, 2^40), as.Ord, Reversed and ThenComparing (primary = an order with ties, both on LessFunc- and CompareFunc-backed receivers), nested up to 3 combinators deep with every component type instantiated at any; global case number g forces catalogue entry g mod 37 (each instance, every tuple arity, an 18-element HCons chain) at nesting level 0,1,2(,3). The pool (>=24 quick / >=40 thorough values) holds random base values, copies in another representation, one single-position mutant per tuple component / sequence element of the first base value, all proper prefixes and an extension for sequence roots, and random further mutants; if values of the domain have storage (fp.Seq, []T, pointers at any depth), additionally one value without empty parts whose slices are windows of longer backing arrays, a fresh copy of it, and values sharing all their storage with it (one allocation context per pool) except for one sequence that is another window of the same array (same start shorter / longer, same content at another offset, overlapping window), the identical object once more, and mutants sharing every untouched part; NaN is never generated. Leaves: integers at both extremes of every width and around +-2^7..2^63, floats +-0/+-Inf/+-max/subnormals/neighbours of 1/beyond 2^53 and 2^64, strings with long shared prefixes, NULs, invalid UTF-8, substrings of one string; time.Time from year -1000 to 30000 incl. the zero Time, both ends of the int64-nanosecond window (1677-09-21 / 2262-04-11) to the nanosecond, pre-1970 instants with fractions, 5 locations, forged mutually consistent monotonic readings. On all ordered pairs and all triples: exactly one of Less(a,b), Less(b,a), Eqv(a,b); Less and Eqv transitive; Compare sign, LessEq, Min, Max consistent with Less; Less, Eqv and Compare equal to the reference order on the models (leaf <, instants, None/nil first, lexicographic with the shorter prefix first, function-then-order for ContraMap/GivenField, wrapped order for New/FromCompare/as.Ord, flipped for Reversed, primary-then-secondary for ThenComparing). Every leaf instance sits behind a call counter: one Less/Eqv/Compare/LessEq/Min/Max call may invoke the component instances at most 200 * 3^depth(expression) * size(a,b) times (logical budget, key <combinator>/exponential-comparisons); per run and wide product (Tuple10..21, HCons chain of 18) one designated deep case evaluates the first base value against its mutant at every position whatever it costs, other pairs whose estimated cost (calibrated by measuring Tuple6 vs Tuple12) is too high are skipped and counted. If the instance is consistent, seq|iterator|list.Sort/Min/Max run on inputs of length 0..200 drawn from the pool with replacement (random, pre-sorted, reversed, 1-3 distinct values); elements carry an identity tag so that permutation, untouched input, sortedness (by the instance and by the reference), least/greatest element and None-on-empty are decided exactly. distinct_nontrivial counts distinct (expression, pool) fingerprints of cases whose pool had at least one tie between different pool entries AND at least one strictly ordered pair exactly one position apart.",
 		Assumptions: []string{
 			"component types are instantiated at any (boxed values); the generic library code is the same for every type argument",
 			"functions given to ContraMap / GivenField / New / FromCompare / as.Ord are pure; compare functions return small or large magnitudes but never math.MinInt",
@@ -1267,6 +1307,24 @@ func main() {
 				"pairs.none_vs_some": 100, "then.ties_broken_by_secondary": 100, "ties.between_representations": 500, "ties.between_different_values": 500,
 				"root.impl.LessFunc": 20, "root.impl.CompareFunc": 20,
 				"sorts": 3000, "sort.inputs_with_duplicates": 500, "sort.inputs_already_sorted": 100, "sort.inputs_reversed": 100, "sort.inputs_empty": 50, "minmax.none_on_empty": 100,
+			}
+			// storage sharing: every slice-like kind in every window relation, identical pointers
+			for k, v := range map[string]int64{"alias.values_with_shared_storage": 5000, "alias.variant_vs_origin.prefix": 500, "alias.variant_vs_origin.extend": 300,
+				"alias.variant_vs_origin.shift": 300, "alias.variant_vs_origin.window": 300, "alias.variant_vs_origin.same": 300, "alias.pointer.identical": 200,
+				"time.values_outside_int64_nanoseconds": 500, "time.values_before_1970_with_fraction": 100, "time.values_zero_time": 20, "time.values_year_below_1_or_above_9999": 100,
+				"time.root_pairs_with_an_instant_outside_int64_nanoseconds": 500, "time.root_pairs_far_past_vs_far_future": 50} {
+				fl[k] = v
+			}
+			for _, kind := range []string{"seq", "slice"} {
+				for _, class := range []string{"identical", "same_start_different_length", "other_offset_equal_content", "other_offset_different_content"} {
+					fl["alias."+kind+"."+class] = 200
+				}
+				fl["alias."+kind+".same_start_one_empty"] = 20
+			}
+			if dyn.MonoAvailable() {
+				fl["time.values_with_monotonic_reading"] = 100
+				fl["time.root_pairs_monotonic_vs_wall"] = 50
+				fl["time.root_pairs_both_monotonic"] = 20
 			}
 			for _, n := range allNames() {
 				fl["hit."+n] = min
@@ -1293,6 +1351,9 @@ func main() {
 			cov["instance_expressions"] = m.Counters["exprs"]
 			cov["sorts_checked"] = m.Counters["sorts"]
 			cov["pairs_with_shared_nonempty_prefix"] = m.Counters["pairs.shared_prefix"]
+			cov["values_sharing_storage_with_another_pool_value"] = m.Counters["alias.values_with_shared_storage"]
+			cov["time_values_outside_int64_nanoseconds"] = m.Counters["time.values_outside_int64_nanoseconds"]
+			cov["time_monotonic_variant_available"] = dyn.MonoAvailable()
 		},
 	})
 }
